@@ -62,6 +62,11 @@ func (e *predEval) boolean(x ast.Expr) (bool, bool) {
 			return !v, ok
 		}
 	case *ast.BinaryExpr:
+		// len(s) == 0 and friends: the emptiness test of a string input
+		if str, empty, ok := eng.StrLenTest(e.f, y); ok {
+			v, ok := e.str(str)
+			return (v == "") == empty, ok
+		}
 		switch y.Op {
 		case token.LAND:
 			a, ok := e.boolean(y.X)
